@@ -629,15 +629,18 @@ def check_lexer(ctx, lib):
             name = c[len(L):]
             if name == "alt":
                 a = [o.of_operand(x) for x in t["args"]]
-                exp = [x[1] for x in a[1] if x[0] == "const"]
-                m1 = token_of_terms(lib, b, a[2])
-                m2 = token_of_terms(lib, b, a[3])
+                # parameter roles are read off the helper's own body, not assumed by position
+                roles = alt_roles(lib) or (2, 3, 4)
+                exp = [x[1] for x in a[roles[0] - 1] if x[0] == "const"]
+                m1 = token_of_terms(lib, b, a[roles[1] - 1])
+                m2 = token_of_terms(lib, b, a[roles[2] - 1])
                 add(("alt", chr(exp[0]) if exp else "?", m1, m2), cs)
             else:
                 extra = ""
                 if name == "consume_number":
-                    neg = o.of_operand(t["args"][-1])
-                    extra = ":neg" if neg == {("const", 1)} else ":pos"
+                    sa = sign_argument(lib)
+                    sgn = o.of_operand(t["args"][sa[0] - 1]) if sa else set()
+                    extra = ":neg" if (sa and sa[1](sgn)) else (":pos" if (sa and sa[2](sgn)) else ":?")
                 add(("scan", name + extra), cs)
     # a token written out for a character class (`'.' => Dot`): the Token value is built in the arm of that class — pushed
     # there or handed to one shared push — and is not one of alt()'s two candidates; every token so built reaches a push
@@ -768,13 +771,22 @@ def closure_true_set(lib, cb):
                 true_set = true_set.union(cf.at(bb))
             elif s["rv"]["op"].get("int") == 0:
                 false_set = false_set.union(cf.at(bb))
-    # direct call result (e.g. c.is_digit(10))
+    # a std character-class test as (part of) the answer: `c.is_digit(10)`, `c == '_' || c.is_ascii_alphanumeric()`
+    DIG = ISet([(0x30, 0x39)])
+    ALPHA = ISet([(0x41, 0x5a), (0x61, 0x7a)])
+    CLASSES = {"is_ascii_digit": DIG, "is_ascii_alphabetic": ALPHA, "is_ascii_alphanumeric": DIG.union(ALPHA),
+               "is_ascii_uppercase": ISet([(0x41, 0x5a)]), "is_ascii_lowercase": ISet([(0x61, 0x7a)])}
     for bb, t in cb.calls():
         if t["dest"]["l"] == 0 and not t["dest"]["p"]:
             name = t["callee"].split("::")[-1]
-            if name == "is_ascii_digit" or (name == "is_digit" and len(t["args"]) > 1 and t["args"][1].get("int") == 10):
-                return ISet([(0x30, 0x39)])
-            return None
+            cls = CLASSES.get(name)
+            if name == "is_digit" and len(t["args"]) > 1 and t["args"][1].get("int") == 10:
+                cls = DIG
+            if cls is None or Origins(cb, lib).of_operand(t["args"][0]) != {("param", 2)}:
+                return None
+            here = cf.at(bb)
+            true_set = true_set.union(here.inter(cls))
+            false_set = false_set.union(here.inter(cls.compl()))
     if true_set.union(false_set) != ISet.full():
         return None
     return true_set
@@ -842,9 +854,8 @@ def check_scanners(ctx, lib):
                         if c[0] == "bin" and c[1] == "Eq" and ("param", 2) in (c[2], c[3]) and edge_dominates(al, (sb, be[0]), nexts[0]):
                             good = True
             ok = good
-        if not ok:
-            nt = next_if_table(lib, al)
-            ok = nt == {("param", 2): {("param", 3)}, "<other>": {("param", 4)}}
+        roles = alt_roles(lib)
+        ok = roles is not None and sorted(roles) == [2, 3, 4]
         ctx.check(ok, rule, "alt", "alt(expected, a, b): consumes the next character and yields a only if it equals `expected`, else yields b", al.span)
     # '=' must be followed by '='
     tk = lib.fn(L + "tokenize")
@@ -925,7 +936,8 @@ def check_number_lexing(ctx, lib, rule):
         o = Origins(nn, lib)
         br = Branches(nn, o)
         calls = [(bb, t) for bb, t in nn.calls() if t["callee"] == L + "consume_number"]
-        ok = len(calls) == 1 and o.of_operand(calls[0][1]["args"][-1]) == {("const", 1)}
+        sa = sign_argument(lib)
+        ok = len(calls) == 1 and sa is not None and sa[1](o.of_operand(calls[0][1]["args"][sa[0] - 1]))
         if ok:
             site = calls[0][0]
             num = nz = False
@@ -944,6 +956,81 @@ def check_number_lexing(ctx, lib, rule):
             errs = [s for _, _, s in region_aggs(nn, nn.reachable(), "std::result::Result") if s["rv"]["variant"] == "Err"]
             ok = ok and len(errs) >= 1
         ctx.check(ok, rule, "minus-needs-nonzero-digit", "'-' must be followed by a digit other than '0', otherwise a parse error", nn.span)
+
+
+def sign_argument(lib):
+    """How consume_number is told the sign: (parameter number, is_negating(term set), is_non_negating(term set)) read off its
+    body — the negation of the parsed value is dominated by that parameter being `true` (a flag) or a particular variant of a
+    private enum — or None."""
+    cn = lib.fn(L + "consume_number")
+    if cn is None:
+        return None
+    o = Origins(cn, lib)
+    br = Branches(cn, o)
+    negs = [bb for bb, i, st in cn.stmts() if st["k"] == "assign" and st["rv"]["k"] == "unop" and st["rv"]["op"] == "Neg"]
+    if len(negs) != 1:
+        return None
+    nb = negs[0]
+    for sb, sw in br.switches():
+        be = br.bool_edges(sb)
+        if be:
+            for c in br.cond(sb):
+                if c[0] == "param" and be[0] != be[1] and edge_dominates(cn, (sb, be[0]), nb):
+                    return c[1], (lambda ts: ts == {("const", 1)}), (lambda ts: ts == {("const", 0)})
+        ve = br.variant_edges(sb)
+        if ve and len(ve["scrutinee"]) == 1 and next(iter(ve["scrutinee"]))[0] == "param" and ve["adt"] in lib.adts:
+            prm = next(iter(ve["scrutinee"]))[1]
+            hit = [v for v, tgt in ve["edges"].items() if edge_dominates(cn, (sb, tgt), nb) and tgt != ve["otherwise"]]
+            if len(hit) == 1:
+                adt = ve["adt"]
+                neg_t = ("agg", f"{adt}::{hit[0]}", (), ())
+                return prm, (lambda ts, neg_t=neg_t: ts == {neg_t}), (lambda ts, adt=adt, neg_t=neg_t: bool(ts) and neg_t not in ts and all(x[0] == "agg" and x[1].startswith(adt + "::") for x in ts))
+    return None
+
+
+def alt_roles(lib):
+    """Which parameter of the two-character-operator helper is the expected second character, which token is returned when it
+    follows (and is consumed) and which otherwise: (expected, matched, otherwise) as parameter numbers, or None."""
+    from ..decision import Undecided, Walker
+    al = lib.fn(L + "alt")
+    if al is None:
+        return None
+    nt = next_if_table(lib, al)
+    if nt is not None:
+        keys = [k for k in nt if k != "<other>"]
+        if len(keys) == 1 and isinstance(keys[0], tuple) and keys[0][0] == "param" and len(nt[keys[0]]) == 1 and len(nt.get("<other>", ())) == 1:
+            m_, o_ = next(iter(nt[keys[0]])), next(iter(nt["<other>"]))
+            if m_[0] == "param" and o_[0] == "param" and m_ != o_:
+                return keys[0][1], m_[1], o_[1]
+        return None
+    o = Origins(al, lib)
+    br = Branches(al, o)
+    nexts = [bb for bb, t in al.calls() if t["callee"] == "std::iter::Iterator::next"]
+    if len(nexts) != 1:
+        return None
+    exp = None
+    for sb, sw in br.switches():
+        be = br.bool_edges(sb)
+        if be:
+            for c in br.cond(sb):
+                if c[0] == "bin" and c[1] == "Eq" and edge_dominates(al, (sb, be[0]), nexts[0]):
+                    ps = [x for x in (c[2], c[3]) if x[0] == "param"]
+                    if len(ps) == 1:
+                        exp = ps[0][1]
+    if exp is None:
+        return None
+    w = Walker(al, o)
+    try:
+        with_next, without = set(), set()
+        for path, leaf in w.walk():
+            (with_next if nexts[0] in path else without).update(w.result_on_path(path))
+    except Undecided:
+        return None
+    if len(with_next) == 1 and len(without) == 1:
+        m_, o_ = next(iter(with_next)), next(iter(without))
+        if m_[0] == "param" and o_[0] == "param" and m_ != o_:
+            return exp, m_[1], o_[1]
+    return None
 
 
 def next_if_table(lib, b):
@@ -976,6 +1063,8 @@ def next_if_table(lib, b):
                 key = chr(k[1])
             elif k[0] == "field" and k[1] == ("closure_env",) and k[2].isdigit() and int(k[2]) < len(clo[0][2]) and len(clo[0][2][int(k[2])]) == 1:
                 key = next(iter(clo[0][2][int(k[2])]))
+                if key[0] == "const" and isinstance(key[1], int):
+                    key = chr(key[1])      # an inlined helper called with a literal character
             else:
                 return None
             sites[bb] = key
